@@ -84,6 +84,7 @@ async fn run(case: &Case, rep: &mut CaseReport) -> Option<(String, String)> {
         nodes_packets: 1,
         seqs: vec![1; 8],
         foreign_enr_answer: vec![],
+        nat_peers: vec![],
         v_session_timeout_ms: if case.short_timeout { Some(SHORT_TIMEOUT_MS) } else { None },
         v_session_capacity: Some(cap as u8),
     };
